@@ -4,7 +4,7 @@
    order and per-key results depend only on that key's subsequence, for every tick partition and
    every interleaving of different keys.
    Proved for the modelled IR (subset of HydroNode, see checks/C29.json). *)
-From HV Require Import Hydro.Model Hydro.ModelFlows Hydro.PBase Hydro.PTick Hydro.PFlows.
+From HV Require Import Hydro.Model Hydro.ModelTick Hydro.ModelFlows Hydro.PBase Hydro.PTick Hydro.PFlows.
 
 (* TotalOrder nodes: sequence equality with the denotation, for every partition into ticks *)
 Theorem C29_total_order_modelled_ir :
@@ -61,3 +61,19 @@ Proof.
     by (intros a H; unfold veqb; destruct (val_eq_dec a k); congruence).
   unfold proj. cbn [filter vfst]. rewrite !E by congruence. reflexivity.
 Qed.
+
+(* REFUTED for `Stream::join` / `cross_product` with a Bounded right side of ordering NoOrder:
+   the result is typed with the LEFT ordering (`B2::PreserveOrderIfBounded<O>` ignores the right
+   ordering O2), but the matches of one left item are emitted in the arrival order of the right
+   side.  [bord] transcribes the Rust typing, [brun] the emitted join_multiset_half.  The witness
+   is replayed on the real code by the t_join_half_unord corpus flow (known finding). *)
+Theorem C29_join_bounded_unordered_side_refuted :
+  exists (l r r' : list val),
+    Permutation r r' /\
+    bord t_join_half_unord = true /\
+    concat (brun t_join_half_unord [mkenv [l; r]]) <> concat (brun t_join_half_unord [mkenv [l; r']]).
+Proof.
+  exists [VP (VN 1) (VN 0)], [VP (VN 1) (VN 5); VP (VN 1) (VN 6)], [VP (VN 1) (VN 6); VP (VN 1) (VN 5)].
+  split; [apply perm_swap|]. split; [reflexivity|]. vm_compute. discriminate.
+Qed.
+Print Assumptions C29_join_bounded_unordered_side_refuted.
